@@ -1,8 +1,9 @@
 (** * C01 — optimisation never changes a query's answer.
     Only statements, each closed by [exact], with its assumptions printed.
-    Gen/Rules.v and Gen/ExprObligations.v are REGENERATED from /repo's rule sources on every run:
+    Gen/Rules.v, Gen/ExprObligations.v, Gen/PlanRules.v and Gen/PlanObligations.v are REGENERATED from /repo's rule sources on every run:
     a changed, added or removed expression rule changes the obligations that are re-proved here. *)
 From RL Require Import Model.Rule Gen.Rules Gen.ExprObligations.
+From RL Require Import Model.PlanSem Proofs.PlanSemP Gen.PlanRules Gen.PlanObligations Proofs.PlanRuleEx.
 
 (** every expression rewrite rule of the optimiser for which the enumeration over
     {NULL, true, false, -1, 0, 1, 2} finds no counterexample is sound for ALL instantiations
@@ -15,5 +16,27 @@ Proof. exact sound_rules_ok. Qed.
 Theorem remaining_expression_rules_are_refuted : Forall refuted refuted_rules.
 Proof. exact refuted_rules_ok. Qed.
 
+(** PLAN rules (Gen/PlanRules.v, regenerated from plan.rs on every run).  Under the bag semantics of
+    Model/PlanSem.v — rows addressed by column name, an expression only reads the columns it mentions,
+    a plan has a meaning only where it can be built — each of these rules (the cancel and merge
+    rules, filter below ORDER BY, filters into inner / semi / anti / left outer joins, the right
+    rotation of two inner joins, and the inner / semi / anti / left-outer instances of the
+    join-condition pushdowns) returns the same schema and the same bag of rows on both sides, for
+    EVERY binding of its variables that satisfies its side conditions *)
+Theorem modelled_plan_rules_are_sound : Forall psound psound_rules.
+Proof. exact psound_rules_ok. Qed.
+(** the others are unsound, each with a concrete binding on which the two sides return different
+    numbers of rows: a filter pushed below LIMIT / top-N (KF_C01_filter_below_limit) and a join
+    condition pushed into the preserved side of an outer join (KF_C01_outer_join_condition_pushdown);
+    a rule appearing here that no known finding lists is reported as a new violation *)
+Theorem remaining_plan_rules_are_refuted : Forall prefuted prefuted_rules.
+Proof. exact prefuted_rules_ok. Qed.
+(** the meaning of any pattern under a well-formed binding is a well-formed relation / expression *)
+Theorem plan_meaning_is_well_formed : forall env, env_ok env -> forall e s, ppev env e = Some s -> wf_sem s.
+Proof. exact ppev_wf. Qed.
+
 Print Assumptions unrefuted_expression_rules_are_sound.
 Print Assumptions remaining_expression_rules_are_refuted.
+Print Assumptions modelled_plan_rules_are_sound.
+Print Assumptions remaining_plan_rules_are_refuted.
+Print Assumptions plan_meaning_is_well_formed.
